@@ -964,8 +964,14 @@ func (in *Interp) doCall(fr *frame, x *ssa.Call, depth int) (res aval, panicked,
 				if m := src.hi - src.lo; m < n {
 					n = m
 				}
+				// copy has memmove semantics: overlapping source and destination behave as if the
+				// source were read completely first
+				tmp := make([]aval, n)
 				for i := 0; i < n; i++ {
-					dst.arr[dst.lo+i].v = src.arr[src.lo+i].v
+					tmp[i] = src.arr[src.lo+i].v
+				}
+				for i := 0; i < n; i++ {
+					dst.arr[dst.lo+i].v = tmp[i]
 				}
 				return aInt(int64(n), x.Type()), false, true
 			}
